@@ -68,6 +68,7 @@ type TreeShapeListener struct {
 	rest_urlparams_len    []int
 	http_path_query_param string
 	stmt_scope            []interface{} // Endpoint, if, if_else, loop
+	stmt_scope_last       []*sysl.Statement // last statement of each scope when it was entered
 	expr_stack            []*sysl.Expr
 	opmap                 map[string]sysl.Expr_BinExpr_Op
 	currentMultiLineAnno  []string
@@ -1583,10 +1584,19 @@ func (s *TreeShapeListener) TopExpr() *sysl.Expr {
 
 func (s *TreeShapeListener) pushScope(scope interface{}) {
 	s.stmt_scope = append(s.stmt_scope, scope)
+	s.stmt_scope_last = append(s.stmt_scope_last, s.lastStatement())
 }
 
 func (s *TreeShapeListener) popScope() {
 	top := s.lastStatement()
+	// an endpoint that is declared again may add no statement: its last statement then belongs
+	// to the earlier declaration and keeps the end it was given there
+	if n := len(s.stmt_scope_last); n > 0 {
+		if top == s.stmt_scope_last[n-1] {
+			top = nil
+		}
+		s.stmt_scope_last = s.stmt_scope_last[:n-1]
+	}
 	if top != nil {
 		top.SourceContext.End = s.lastEnd //nolint:staticcheck
 		top.SourceContexts[len(top.SourceContexts)-1].End = s.lastEnd
